@@ -28,11 +28,11 @@ UNIT = Unit(
     items=[
         Raw(path="contracts/goident.shim.rs"),
         Fn(file=MG, name="is_go_predeclared", ret="r", optional=True,
-           pre_rewrites=[(re.compile(r"matches!\(\s*(\w+),\s*((?:\"[^\"]*\"\s*\|?\s*)+)\)", re.S), kw_matches, 1)],
+           pre_rewrites=[(re.compile(r"matches!\(\s*(\w+),\s*((?:(?://[^\n]*\n\s*)*\|?\s*\"[^\"]*\"\s*\|?\s*)+)\)", re.S), kw_matches, 1)],
            obligation="true exactly for the predeclared identifiers of Go (universe block, plus `fmt`) that a goml program can choose as a name",
            contract="ensures r == go_predeclared(s@),"),
         Fn(file=MG, name="is_go_keyword", ret="r",
-           pre_rewrites=[(re.compile(r"matches!\(\s*(\w+),\s*((?:\"[^\"]*\"\s*\|?\s*)+)\)", re.S), kw_matches, 1)],
+           pre_rewrites=[(re.compile(r"matches!\(\s*(\w+),\s*((?:(?://[^\n]*\n\s*)*\|?\s*\"[^\"]*\"\s*\|?\s*)+)\)", re.S), kw_matches, 1)],
            obligation="true exactly for the names the emitted Go must not define: the 25 keywords of the Go specification and the predeclared identifiers a goml "
                       "program can choose (with is_go_predeclared, when that helper exists)",
            contract="ensures r == go_reserved(s@),"),
